@@ -19,7 +19,7 @@ RULE = ('case = device log table, a log configuration (0..26 variables over all 
         'create/append wire hash) for accepted configurations.')
 ASSUMPTIONS = ['firmware V2 block-creation layout: entries of (type:u8, id:u16); data packet = id, 24-bit timestamp, values',
                'for table variables the stored-type nibble may be the fetch type or the table type (the firmware ignores it)']
-REQUIRED = ['mon.configs_with_a_float_period', 'mon.rejected_configs_used_anyway', 'mon.refused_configurations_started_again', 'mon.configs_accepted', 'mon.configs_rejected', 'mon.create_messages', 'mon.append_messages',
+REQUIRED = ['mon.configs_added_again_after_the_log_table_indices_moved', 'mon.configs_with_a_float_period', 'mon.rejected_configs_used_anyway', 'mon.refused_configurations_started_again', 'mon.configs_accepted', 'mon.configs_rejected', 'mon.create_messages', 'mon.append_messages',
             'mon.data_packets_decoded', 'mon.flag_checks', 'mon.readd_checks', 'mon.synclogger_samples',
             'mon.rejected_then_readded_on_newer_firmware', 'mon.delivered_samples_rechecked_later',
             'mon.synclogger_first_sample_right_behind_start_ack',
@@ -311,14 +311,26 @@ def run(desc, ctx):
             before = [(v.name, v.fetch_as, v.type) for v in lc.variables]
             cf.close_link()
             s.sleep(0.5)
+            if (desc['seed'] // 4) % 2 == 0 and not desc['errinj'] and not ob.get('upgraded'):
+                # the firmware was updated in between: a new variable in front of the log table moves every index
+                dev.log_toc.insert(0, ('aanew', 'first', 1))
+                dev.log_crc = (dev.log_crc + 1) & 0xFFFFFFFF
+                ob['shifted'] = True
             done.clear()
             cf.open_link(uri)
             if not done.wait(300.0):
                 ob['problems'].append('reconnect failed')
                 return
             s.sleep(0.2)
+            ob['readd_ev0'] = len(dev.events)
             try:
                 cf.log.add_config(lc)
+                flags('after-reconnect-and-re-add')
+                if ob.get('shifted'):
+                    lc.start()           # (the block is created on the device when the configuration is started)
+                    s.sleep(0.1)
+                    ob['readd_id'] = lc.id
+                    flags('after-start-of-the-re-added-configuration')
             except Exception as e:  # noqa
                 ob['notes'].append(('re-add raised', type(e).__name__))
             ob['readd'] = (before, [(v.name, v.fetch_as, v.type) for v in lc.variables])
@@ -412,6 +424,20 @@ def run(desc, ctx):
         if not okm:
             V('log:create-messages-do-not-enumerate-the-variables',
               {'specs': shown, 'entries_on_wire': entries[:30], 'wanted': want[:30]})
+    if ob.get('shifted') and 'readd_id' in ob:
+        # the same configuration object added again on a firmware whose table has other indices
+        ctx.count('mon.configs_added_again_after_the_log_table_indices_moved')
+        toc_type2, toc_id2, fetch_ids2, _k2, _p2, _r2 = plan()
+        ent2 = []
+        for e in dev.events[ob['readd_ev0']:]:
+            if e[0] in ('log_create', 'log_append') and e[1] == ob['readd_id']:
+                body = e[3][2:]
+                for j in range(len(body) // 3):
+                    ent2.append((body[3 * j] & 0x0F, struct.unpack('<H', body[3 * j + 1:3 * j + 3])[0]))
+        want2 = [(f, toc_id2[sp[1]]) for sp, f in zip(specs, fetch_ids2)]
+        if ent2[:len(want2)] != want2:
+            V('log:create-messages-do-not-enumerate-the-variables:added-again-after-the-table-changed',
+              {'specs': shown, 'entries_on_wire': ent2[:30], 'wanted': want2[:30]})
     # ---- data decoding
     sent = ob.get('sent', [])
     got = [d for d in ob['data'] if d[2] is lc]
@@ -456,6 +482,14 @@ def run(desc, ctx):
             if not (dev_has and dev_started) or ob.get('second_start_exc'):
                 V('log:configuration-started-again-after-a-refusal-not-created-and-started-on-the-device',
                   {'device_has_block': dev_has, 'device_started': dev_started, 'raised': ob.get('second_start_exc')})
+        elif tag == 'after-reconnect-and-re-add':
+            # the device dropped every block when the new connection reset its log subsystem (and acknowledged that)
+            exp = (False, False)
+        elif tag == 'after-start-of-the-re-added-configuration':
+            exp = (True, True)
+            if not (dev_has and dev_started):
+                V('log:re-added-configuration-started-but-not-created-and-started-on-the-device',
+                  {'device_has_block': dev_has, 'device_started': dev_started, 'added': added, 'started': started})
         elif tag == 'after-stop':
             exp = (True, False) if not inj or inj[0][1] == 'start' else None
         elif tag == 'after-restart':
@@ -468,8 +502,11 @@ def run(desc, ctx):
     if not any(n[0] == 'injected' for n in ob['notes']) and ob['flagchecks']:
         a_tr = [a[1] for a in ob['added_cb'] if len(a) == 2 and a[0] is lc]
         s_tr = [a[1] for a in ob['started_cb'] if len(a) == 2 and a[0] is lc]
-        exp_a = {0: [True], 1: [True], 2: [True, False], 3: [True]}[desc['hist']]
-        exp_s = {0: [True], 1: [True], 2: [True, False, True, False], 3: [True]}[desc['hist']]
+        # history 3: the reset of the log subsystem at the second connection is acknowledged by the device - the block is
+        # gone (False); when the configuration is started again it is created and started again (True)
+        again = [True] if 'readd_id' in ob else []
+        exp_a = {0: [True], 1: [True], 2: [True, False], 3: [True, False] + again}[desc['hist']]
+        exp_s = {0: [True], 1: [True], 2: [True, False, True, False], 3: [True, False] + again}[desc['hist']]
         if a_tr != exp_a or s_tr != exp_s:
             V('log:added-started-callbacks-do-not-follow-acknowledgements',
               {'added_cb': a_tr, 'started_cb': s_tr, 'expected': [exp_a, exp_s]})
